@@ -89,7 +89,8 @@ def gen_case(r, hashseed, tier):
   return {'hashseed': hashseed, 'program': program, 'ground': ground, 'ground_table': ground_table,
           'versions': versions, 'ops': ops, 'aux_db': aux_db, 'attach_via_flag': r.random() < 0.25,
           # @Dataset("logica_test"): grounded tables are asked to live in the in-memory database although a file is attached
-          'dataset_memory': (not ground_table) and r.random() < 0.12}
+          'dataset_memory': (not ground_table) and r.random() < 0.12,
+          'with_too': [g for g in ground if r.random() < 0.12]}
 
 
 def add_grounded_functor(r, program, ground, dep):
@@ -147,6 +148,9 @@ def program_at(case, version, dbpath):
   p['attach_via_flag'] = bool(case.get('attach_via_flag'))
   if case.get('dataset_memory'):
     p['noise'] = list(p.get('noise') or []) + ['@Dataset("logica_test");']
+  for g in case.get('with_too') or []:
+    # a grounded predicate that ALSO carries an explicit @With: @Ground decides
+    p['noise'] = list(p.get('noise') or []) + ['@With(%s);' % g]
   if case.get('aux_db'):
     # a second attached database that nothing uses: the grounded tables must still land in logica_home
     where = case['aux_db']
